@@ -51,6 +51,7 @@ type World struct {
 	fullNameMemo map[string]*ssa.Function
 	privMemo map[*ssa.Alloc]bool
 	boxed map[string]bool
+	privMapMemo map[ssa.Value]bool
 }
 
 type contractErr struct{ file, msg, raw string }
@@ -938,4 +939,64 @@ func (w *World) boxedTypes() map[string]bool {
 		}
 	}
 	return w.boxed
+}
+
+// privateMap: v is a map created in its function (make, or the result of a call whose contract says `fresh`,
+// possibly one component of a tuple result) and used only by lookups, updates, range, len and delete there.
+func (w *World) privateMap(v ssa.Value) bool {
+	if r, ok := w.privMapMemo[v]; ok {
+		return r
+	}
+	if w.privMapMemo == nil {
+		w.privMapMemo = map[ssa.Value]bool{}
+	}
+	res := false
+	switch x := v.(type) {
+	case *ssa.MakeMap:
+		res = mapUsesPrivate(x)
+	case *ssa.Call:
+		if f, ok := x.Call.Value.(*ssa.Function); ok && !x.Call.IsInvoke() {
+			if c := w.contractFor(f); c != nil && c.Fresh {
+				res = mapUsesPrivate(x)
+			}
+		}
+	case *ssa.Extract:
+		if call, ok := x.Tuple.(*ssa.Call); ok && !call.Call.IsInvoke() {
+			if f, ok := call.Call.Value.(*ssa.Function); ok {
+				if c := w.contractFor(f); c != nil && c.FreshResults[x.Index] {
+					res = mapUsesPrivate(x)
+				}
+			}
+		}
+	}
+	w.privMapMemo[v] = res
+	return res
+}
+
+func mapUsesPrivate(v ssa.Value) bool {
+	refs := v.Referrers()
+	if refs == nil {
+		return false
+	}
+	for _, r := range *refs {
+		switch x := r.(type) {
+		case *ssa.Lookup:
+			if x.X != v {
+				return false
+			}
+		case *ssa.MapUpdate:
+			if x.Map != v || x.Key == v || x.Value == v {
+				return false
+			}
+		case *ssa.Range, *ssa.DebugRef:
+		case *ssa.Call:
+			b, ok := x.Call.Value.(*ssa.Builtin)
+			if !ok || (b.Name() != "len" && b.Name() != "delete") {
+				return false
+			}
+		default:
+			return false
+		}
+	}
+	return true
 }
